@@ -1,4 +1,5 @@
 import IncanModel.Lemmas.Cargo
+import IncanModel.Tool.Scanners
 /-
 C15 — The generated Cargo project declares exactly what the code needs, pinned.
 -/
@@ -123,3 +124,40 @@ theorem names_nodup (f : Flags) (table : List (Name × Spec)) (hn : (table.map (
 example : (fixedDeps ⟨true, false, true⟩).map (·.1) = [n_incan_stdlib, n_incan_derive, n_serde, n_serde_json, n_axum, n_tokio] := by decide
 
 end Incan.Cargo
+
+/-! ### Feature detection reaches every position -/
+namespace Incan.Scanners
+
+theorem json_follows_every_step : ∀ s ∈ allSteps, s ∈ jsonSteps := by decide
+theorem async_follows_every_step : ∀ s ∈ allSteps, s ∈ asyncSteps := by decide
+
+theorem scans_of_subset (followed path : List String) (h : ∀ s ∈ path, s ∈ followed) : scans followed path = true := by
+  unfold scans
+  rw [List.all_eq_true]
+  intro s hs
+  exact List.contains_iff_mem.2 (h s hs)
+
+/-- MAIN (serde detection): a `json_stringify` call at any expression position of a program — in any declaration
+that carries code (functions, methods of models / classes / newtypes, trait default methods, const initializers,
+field defaults), under any nesting of statements and expressions — is found by the scanner, so `serde` and
+`serde_json` are declared. -/
+theorem json_trigger_found_everywhere (path : List String) (h : ∀ s ∈ path, s ∈ allSteps) :
+    scans jsonSteps path = true :=
+  scans_of_subset _ _ fun s hs => json_follows_every_step s (h s hs)
+
+/-- MAIN (async detection): likewise for an `await` / async builtin, so `tokio` is declared. -/
+theorem async_trigger_found_everywhere (path : List String) (h : ∀ s ∈ path, s ∈ allSteps) :
+    scans asyncSteps path = true :=
+  scans_of_subset _ _ fun s hs => async_follows_every_step s (h s hs)
+
+/-- Before the fixes a trigger inside a newtype method (or a chained assignment, an index of an index assignment,
+…) was not found: kernel-checked on the scanner as it was. -/
+theorem json_trigger_was_missed :
+    scans jsonStepsBefore ["Newtype.method", "Return.value"] = false ∧
+    scans jsonStepsBefore ["Function.body", "ChainedAssignment.value"] = false ∧
+    scans jsonStepsBefore ["Function.body", "IndexAssignment.index", "Call.arg"] = false ∧
+    scans jsonStepsBefore ["Function.body", "If.else", "Assignment.value", "Binary.arith.right", "Call.arg"] = true := by
+  decide
+
+end Incan.Scanners
+
